@@ -81,6 +81,13 @@ def prepare(u, repo):
                 pat = re.compile(r"(?<![A-Za-z0-9_])" + re.escape(a) + r"(?![A-Za-z0-9_])")
                 text, n = pat.subn(b, text)
                 rsx._count(e.rewrites, "R7.subst[%s=>%s]" % (a, b), n)
+            if ex.get("wrap_impl"):
+                # a method is put back inside an impl block with the header the address names (the header text is
+                # taken from the address, which must match the real impl header for the extraction to succeed)
+                hdr = [x.strip() for x in addr.split(" :: ") if x.strip().startswith("impl")]
+                if hdr:
+                    text = hdr[-1] + " {\n" + text + "\n}\n"
+                    rsx._count(e.rewrites, "wrapped_in_own_impl_header")
             if ex.get("wrap"):
                 text = ex["wrap"] + "\n{\n" + text + "\n}\n"
                 rsx._count(e.rewrites, "R7.region_wrapped_as_fn")
